@@ -44,8 +44,9 @@ def script_cases(options, sanitize, min_statements=1, max_statements=3, comments
     plain = G.script(min_statements, max_statements, comments=comments, **lay)
     # a quarter of the scripts are CASE-heavy (CASE with AND/OR conditions in select list, WHERE and ORDER BY)
     heavy = G.script(1, 2, comments=comments, stmt=G.case_heavy_select(), **lay)
-    return st.tuples(st.one_of(plain, plain, plain, heavy), options).map(
-        lambda t: case_from(t[0], t[1], sanitize))
+    # options first: values drawn after a large structure are biased towards their simplest form
+    return st.tuples(options, st.one_of(plain, plain, plain, heavy)).map(
+        lambda t: case_from(t[1], t[0], sanitize))
 
 
 def features(clean, marks):
